@@ -97,6 +97,15 @@ func c08Cells(tier string) []Cell {
 		}
 	}
 
+	// Two batch operations next to each other (and next to the clients): each still acts on every key at one instant
+	for _, b := range backendKinds {
+		for _, bt := range []string{"deleteall+expireall", "deleteall+cleanup", "expireall+cleanup"} {
+			for _, a := range c08Progs(1) {
+				cells = append(cells, Cell{ID: c08Cell{Backend: b, Batch: bt, A: a, NB: 1, Unb: tier == "thorough"}.id()})
+			}
+		}
+	}
+
 	// The hash-colliding part of the key set: two different keys with the same xxhash64, all schedules of the small
 	// programs, per-slot linearizability (an operation affects its own key only; a write may displace the other key).
 	for _, b := range backendKinds {
@@ -396,7 +405,7 @@ func c08Run(c Cell, env *Env) CellResult {
 	}
 
 	init0 := regState{Present: true, Val: 0}
-	if cc.Batch == "cleanup" || cc.Batch == "evict" {
+	if strings.Contains(cc.Batch, "cleanup") || cc.Batch == "evict" {
 		init0.Exp, init0.Long = true, true
 	}
 
@@ -462,10 +471,18 @@ func c08Run(c Cell, env *Env) CellResult {
 			run(2, p.c)
 
 			if cc.Batch != "none" {
-				vsched.SpawnThread("batch", func() { h.batch(cc.Batch, 3) })
+				// "x+y": two batch threads next to each other
+				for i, bt := range strings.Split(cc.Batch, "+") {
+					i, bt := i, bt
+					vsched.SpawnThread("batch", func() { h.batch(bt, 3+2*i) })
+				}
 			}
 
 			vsched.Join()
+
+			// what is left at quiescence belongs to the history as well
+			h.do(9, 2)
+			h.do(9, 3)
 		}
 
 		check := func(r *vsched.Result) []Violation {
@@ -644,7 +661,7 @@ func init() {
 		Cells: c08Cells, Run: c08Run,
 		Rule: "client programs: thread A = every sequence of 1-2 operations over {Write,Read,Delete} x {k0,k1}, thread B = every sequence of 1 (quick) / 1-2 (thorough) operations, optional third single-operation thread (thorough), " +
 			"preemption bound 2 with happens-before caching; thorough additionally runs the quick programs with ALL interleavings; " +
-			"plus one batch thread from {ExpireAll (MostExpired/LRU/LFU), DeleteAll, cleanup (delete-expired; MostExpired/LRU/LFU), eviction under MostExpired/LRU/LFU, Walk under MostExpired/LRU, Walk whose callback gives up}; k0,k1 live in the same shard; 3 backends; the ExpireAll and cleanup cells once more on a cache configured with UnlimitedTTL; the client programs once more on two keys with the SAME xxhash64 (slot model: a write may displace the colliding key, nothing else may cross keys); " +
+			"plus one batch thread from {ExpireAll (MostExpired/LRU/LFU), DeleteAll, cleanup (delete-expired; MostExpired/LRU/LFU), eviction under MostExpired/LRU/LFU, Walk under MostExpired/LRU, Walk whose callback gives up; pairs of batch threads DeleteAll+ExpireAll, DeleteAll+cleanup, ExpireAll+cleanup next to one-operation clients}; every history ends with a read of both keys at quiescence; k0,k1 live in the same shard; 3 backends; the ExpireAll and cleanup cells once more on a cache configured with UnlimitedTTL; the client programs once more on two keys with the SAME xxhash64 (slot model: a write may displace the colliding key, nothing else may cross keys); " +
 			"all schedules within the bound; each per-key history (invocation/response stamped by a logical clock, batch calls as one pseudo-operation per key spanning the call, every Walk report as a read-like pseudo-operation) " +
 			"is checked with porcupine against a nondeterministic register-with-expiry model; an entry nobody touches must be visited exactly once by every Walk",
 		Assumptions: []string{
